@@ -80,6 +80,7 @@ def run_monitored(blk, sched, mon, ctx, tag):
             tr.append(new); prev = new; continue
         if msg and viol is None:
             viol = {'what': '%s violates C16: %s' % (blk.name, msg), 'block': blk.name, 'W': getattr(blk, 'W', None), 'DW': blk.DW,
+                    'interface_options': getattr(blk, 'opts', {}),
                     'inputs': ctx_inputs(blk), 'schedule': [list(x) for x in sched[:k + 1]], 'cycle': k,
                     'outputs_before': prev, 'outputs_after': new, 'source': tag}
         tr.append(new); prev = new
@@ -95,20 +96,24 @@ def ctx_inputs(blk):
 # ------------------------------------------------------------------ random / patterned schedules: tie (a) (b) (c)
 def random_sweep(ctx, n_sched, n_cycles, with_coq, n_coq=10 ** 9):
     rng = random.Random(ctx.seed * 7919 + 16)
-    a_cases, b_cases, dumps = [], [], []
+    a_cases, b_cases, dumps, opts_of = [], [], [], {}
     a_kinds = ['random', 'session', 'back2back', 'midreset']
     b_kinds = ['random', 'session', 'backpressure', 'loadpending', 'midtransfer']
     for k in range(n_sched):
         W, DW = WIDTHS[k % len(WIDTHS)]
         for cls, kinds in ((B.A2R, a_kinds), (B.R2A, b_kinds)):
             kind = kinds[(k // len(WIDTHS) + k) % len(kinds)]
-            blk = build_block(ctx, cls, W, DW)
+            # the first round of widths uses the plain interface, later rounds draw its optional signals (TID/TDEST/TUSER/TSTRB/...)
+            opts = B.draw_opts(rng, W, cls is B.A2R) if k >= len(WIDTHS) else {}
+            blk = build_block(ctx, cls, W, DW, opts)
+            blk.noise = random.Random(rng.getrandbits(32))
             n = rng.randint(n_cycles // 2, n_cycles)
             sched = B.a2r_schedule(rng, DW, n, kind) if cls is B.A2R else B.r2a_schedule(rng, W, n, kind)
             mon = B.A2RMonitor(W) if cls is B.A2R else B.R2AMonitor(W, DW)
             dp = blk.dump() if with_coq and k < (4 if ctx.quick else 2 * len(WIDTHS)) else None
             iv = dp.values() if dp else None
             full = []
+            if dp: blk.noise = None        # the recorded stimulus of the netlist comparison contains the adapter's inputs only
             if dp:      # run through the dump so that the complete wire vector of every cycle is recorded for tie (b)
                 orig_step = blk.step
                 def step(i, blk=blk, dp=dp, full=full, orig=orig_step):
@@ -119,7 +124,10 @@ def random_sweep(ctx, n_sched, n_cycles, with_coq, n_coq=10 ** 9):
             if viol:
                 ctx.violation(viol); raise Stop()
             if k < 2: ctx.sample({'block': blk.name, 'W': W, 'DW': DW, 'kind': kind, 'first_cycles': [list(x) for x in sched[:4]], 'outputs': tr[:4]})
-            if k < n_coq: (a_cases if cls is B.A2R else b_cases).append((W, DW, sched, tr))
+            if k < n_coq:
+                lst = a_cases if cls is B.A2R else b_cases
+                opts_of[('a' if cls is B.A2R else 'b', len(lst))] = blk.opts
+                lst.append((W, DW, sched, tr))
             if dp:
                 ids = [dp.wid[id(w)] for w in blk.inw]
                 steps = [([(wid, v) for wid, v in zip(ids, i)], 1) for i in sched]
@@ -146,7 +154,7 @@ def random_sweep(ctx, n_sched, n_cycles, with_coq, n_coq=10 ** 9):
             for d, what, spec in ((dr, 'reference machine (Spec/C16.v)', True), (dh, 'history reading (Spec/C16.v)', True), (dm, 'gate-level model (Model/Axi.v)', False)):
                 if d is not None:
                     cyc, impl_o, other_o = d[1]
-                    rp = {'what': '%s: real block and %s disagree' % (blkname, what), 'block': blkname, 'W': W, 'DW': DW,
+                    rp = {'what': '%s: real block and %s disagree' % (blkname, what), 'block': blkname, 'W': W, 'DW': DW, 'interface_options': opts_of.get((name, j), {}),
                           'schedule': [list(x) for x in sched[:cyc + 1]], 'cycle': cyc, 'impl_outputs': impl_o, 'expected_outputs': other_o,
                           'inputs': '(ap_start, ap_reset, ap_done, tvalid, tdata)' if name == 'a' else '(ap_start, ap_reset, ap_done, load_outs, tready, reg_in)'}
                     # a disagreement with the spec is a failing input; with the model only, the tie is broken (the monitors found nothing)
@@ -362,21 +370,65 @@ def fsm_sweep(ctx, n_sched, with_coq):
                 raise Stop()
 
 
+def interface_oracle(ctx):
+    """AXI4StreamInterface (axi.py): for every combination of the optional signals, each AXI4-Stream signal is its own wire of the
+    declared width, reachable under its own attribute, listed once in the right direction list, and named <interface>_<signal>."""
+    py4hw, AXIS, vw = B._imports()
+    grid = []
+    for dw in (8, 32, 64):
+        for flags in itertools.product((False, True), repeat=3):
+            for iw, rw, uw in ((None, None, None), (3, None, None), (None, 4, None), (None, None, 5), (2, 3, 1), (16, 1, 8), (8, 8, 8)):
+                grid.append((dw, flags, iw, rw, uw))
+    for dw, (tl, tk, ts), iw, rw, uw in grid:
+        cfg = {'dw': dw, 'has_tlast': tl, 'has_tkeep': tk, 'has_tstrb': ts, 'iw': iw, 'rw': rw, 'uw': uw}
+        try:
+            with quiet():
+                hw = py4hw.HWSystem()
+                s = AXIS(hw, 'axis', **cfg)
+        except Exception as ex:
+            ctx.violation({'what': 'AXI4StreamInterface(%s) raised %s: %s' % (cfg, type(ex).__name__, ex), 'block': 'AXI4StreamInterface', 'config': cfg}); raise Stop()
+        exp = [('tvalid', 1), ('tdata', dw)] + ([('tlast', 1)] if tl else []) + ([('tkeep', dw // 8)] if tk else []) + ([('tstrb', dw // 8)] if ts else []) \
+              + ([('tuser', uw)] if uw is not None else []) + ([('tid', iw)] if iw is not None else []) + ([('tdest', rw)] if rw is not None else [])
+        got = [(n, w.getWidth()) for n, w in s.sourceToSink]
+        back = [(n, w.getWidth()) for n, w in s.sinkToSource]
+        msg = None
+        if sorted(got) != sorted(exp): msg = 'source->sink signals %s, expected %s' % (got, exp)
+        elif back != [('tready', 1)]: msg = 'sink->source signals %s, expected [tready:1]' % back
+        else:
+            seen = {}
+            for n, w in list(s.sourceToSink) + list(s.sinkToSource):
+                a = getattr(s, n, None)
+                if a is not w: msg = 'attribute %s is not the wire registered as %s (it is %s, %s bits)' % (n, n, getattr(a, 'name', a), a.getWidth() if a is not None else '-'); break
+                if w.name != 'axis_' + n: msg = 'wire of %s is named %s' % (n, w.name); break
+                if id(w) in seen: msg = '%s and %s share one wire' % (n, seen[id(w)]); break
+                seen[id(w)] = n
+            for n in ('tlast', 'tkeep', 'tstrb', 'tuser', 'tid', 'tdest'):
+                if msg is None and hasattr(s, n) and n not in dict(exp): msg = 'optional signal %s exists although not requested' % n
+        ctx.count(hash(('AXI4StreamInterface', tuple(sorted(cfg.items(), key=str)))))
+        if msg:
+            ctx.violation({'what': 'AXI4StreamInterface: %s' % msg, 'block': 'AXI4StreamInterface', 'config': cfg}); raise Stop()
+
+
 def port_directions(ctx):
     """AXI4StreamInterface + addInterfaceSink / addInterfaceSource: the sink reads tvalid/tdata(/tlast/tkeep) and drives tready,
     the source drives tvalid/tdata/tlast/tkeep and reads tready."""
-    for cls, ins, outs in ((B.A2R, {'ap_start', 'ap_reset', 'ap_done', 'tvalid', 'tdata'}, {'tready', 'q', 'loaded', 'active'}),
-                           (B.R2A, {'ap_start', 'ap_reset', 'ap_done', 'load_outs', 'reg_in', 'tready'}, {'tvalid', 'tdata', 'tlast', 'tkeep', 'sent', 'active'})):
-        blk = build_block(ctx, cls, 8, 8)
+    full = {'has_tlast': True, 'has_tkeep': True, 'has_tstrb': True, 'iw': 3, 'rw': 2, 'uw': 5}
+    for cls, ins0, outs0, opts in ((B.A2R, {'ap_start', 'ap_reset', 'ap_done', 'tvalid', 'tdata'}, {'tready', 'q', 'loaded', 'active'}, {}),
+                                   (B.R2A, {'ap_start', 'ap_reset', 'ap_done', 'load_outs', 'reg_in', 'tready'}, {'tvalid', 'tdata', 'tlast', 'tkeep', 'sent', 'active'}, {}),
+                                   (B.A2R, {'ap_start', 'ap_reset', 'ap_done', 'tvalid', 'tdata'}, {'tready', 'q', 'loaded', 'active'}, full),
+                                   (B.R2A, {'ap_start', 'ap_reset', 'ap_done', 'load_outs', 'reg_in', 'tready'}, {'tvalid', 'tdata', 'tlast', 'tkeep', 'sent', 'active'}, full)):
+        blk = build_block(ctx, cls, 8, 8, opts)
+        side = {n for n, w in blk.stream.sourceToSink} - {'tvalid', 'tdata'}
+        ins = ins0 | (side if cls is B.A2R else set()); outs = outs0 | (side if cls is B.R2A else set())
         gi, go = {p.name for p in blk.dut.inPorts}, {p.name for p in blk.dut.outPorts}
-        ctx.count((cls.name, 'ports'))
+        ctx.count((cls.name, 'ports', bool(opts)))
         if gi != ins or go != outs:
-            ctx.violation({'what': '%s: stream port directions differ from the AXI4-Stream roles' % cls.name, 'block': cls.name,
+            ctx.violation({'what': '%s: stream port directions differ from the AXI4-Stream roles' % cls.name, 'block': cls.name, 'interface_options': opts,
                            'in_ports': sorted(gi), 'out_ports': sorted(go), 'expected_in': sorted(ins), 'expected_out': sorted(outs)})
             raise Stop()
         # each stream wire must be the very wire object of the interface (no copies)
         for p in blk.dut.inPorts + blk.dut.outPorts:
-            if p.name in ('tvalid', 'tready', 'tdata', 'tlast', 'tkeep'):
+            if p.name in (('tvalid', 'tready', 'tdata') if cls is B.A2R else ('tvalid', 'tready', 'tdata', 'tlast', 'tkeep')):
                 w = {'tvalid': 0, 'tdata': 1, 'tlast': 2, 'tkeep': 3}
                 exp = blk.inw[3 if p.name == 'tvalid' else 4] if (cls is B.A2R and p.name != 'tready') else \
                       blk.outw[3] if cls is B.A2R else blk.inw[4] if p.name == 'tready' else blk.outw[w[p.name]]
@@ -403,6 +455,7 @@ def run(ctx):
     gc.disable()        # hundreds of thousands of small tuples are alive during the sweeps; collections only cost time
     ctx.log('proofs built: %s' % r['ok'])
     try:
+        interface_oracle(ctx)
         port_directions(ctx)
         random_sweep(ctx, 32 if q else 320, 36 if q else 60, with_coq=model_ok, n_coq=32 if q else 128)
         infos = []
@@ -437,8 +490,9 @@ def replay(rp):
     sched = [tuple(x) for x in rp.get('schedule', [])]
     if name not in ('Axi2Reg', 'Reg2Axi', 'Axi2Clk') or not sched:
         print(json.dumps(rp, indent=1)[:3000]); return 0
-    if name == 'Axi2Reg': blk, mon = B.A2R(rp['W'], rp['DW']), B.A2RMonitor(rp['W'])
-    elif name == 'Reg2Axi': blk, mon = B.R2A(rp['W'], rp['DW']), B.R2AMonitor(rp['W'], rp['DW'])
+    opts = rp.get('interface_options') or {}
+    if name == 'Axi2Reg': blk, mon = B.A2R(rp['W'], rp['DW'], opts), B.A2RMonitor(rp['W'])
+    elif name == 'Reg2Axi': blk, mon = B.R2A(rp['W'], rp['DW'], opts), B.R2AMonitor(rp['W'], rp['DW'])
     else: blk, mon = B.A2C(rp.get('DW') or 64), B.A2CMonitor()
     tr, viol = run_monitored(blk, sched, mon, C(), 'replay')
     print('inputs %s' % ctx_inputs(blk))
